@@ -414,6 +414,8 @@ class Program:
     def __init__(self, cfg, d):
         self.cfg = cfg
         self.raw = d
+        from . import inline
+        self.inlined = inline.run(d)
         self.fns = [Fn(self, f) for f in d["fns"]]
         self.by_path = {}
         for f in self.fns:
